@@ -68,6 +68,8 @@ package rsyncd
 //@ ghost aclAddr: Str
 //@ ghost aclOK: bool
 //@ func rsyncd.checkACL
+//@   unreachable return@9
+//@ func rsyncd.checkACL
 //@   modifies ghost.aclBase, ghost.aclLen, ghost.aclAddr, ghost.aclOK
 //@   ensures[ghostdef] ghost.aclBase == base(acls) && ghost.aclLen == len(acls) && ghost.aclAddr == remoteAddr && (ghost.aclOK <==> err == nil)
 //@   ensures [empty-list-grants] len(acls) == 0 ==> err == nil
